@@ -44,7 +44,7 @@ def run(ctx: Ctx):
             behs.append((b, cs))
     groups = {}
     for bi, (beh, cs) in enumerate(behs):
-        for conc in (dd.CONCS if bi % 3 == 0 else (dd.CONCS[bi % 4],)):
+        for conc in (dd.CONCS if bi % 3 == 0 else (dd.CONCS_OFF[bi % len(dd.CONCS_OFF)],)):
             tr = dc.replay(ctx, beh, conc, cs, f"behaviour {bi}")
             ctx.evaluations += 1
             if tr:
@@ -57,7 +57,7 @@ def run(ctx: Ctx):
     # 3. C->S
     n = ctx.pick(300, 3000)
     for i in range(n):
-        conc = dd.CONCS[i % 4]
+        conc = dd.CONCS_OFF[i % len(dd.CONCS_OFF)]
         end_t, warm_t = ctx.rng.choice([(4, 2), (6, 0), (5, 5)])
         ctl = dc.random_run(ctx, ctx.rng, conc, end_t, warm_t, "pause", cmds=["Start"], ncmds=1,
                             maxev=ctx.rng.choice([6, 12, 20]))
